@@ -1563,7 +1563,6 @@ class Node:
         [(parent_key, data)]
         ```
         """
-        calc_id = self._tree.calc_data_id
         #: For nodes with multiple occurrences: index of the first one
         #: For typed nodes, we must also check if the `kind` matches, before
         #: simply store a reference.
@@ -1598,8 +1597,9 @@ class Node:
             parent_id = node._parent._node_id
             parent_idx = parent_id_map[parent_id]
 
-            node_data = node._data
-            data_id = calc_id(node_data)
+            # Clones are nodes that share the same `data_id` (which is not
+            # neccessarily the calculated id of the data object)
+            data_id = node._data_id
 
             # If node is a 2nd occurrence of a clone, only store the index of the
             # first occurrence and do not call the mapper
